@@ -2642,6 +2642,9 @@ class MultiplexedGate(Gate):
         if len(tgates) != 2**ncontrols:
             raise ValueError(
                 f"require {2**ncontrols} target gates for {ncontrols} control qubits")
+        if any(g.num_wires != tgates[0].num_wires for g in tgates):
+            raise ValueError(
+                "all target gates must act on the same number of wires")
         self.tgates = list(tgates)
         self.ncontrols = ncontrols
         self.control_qubits = []
